@@ -35,6 +35,9 @@ fn curated() -> Vec<(Vec<Line>, Term)> {
         vec![class("p.A", "a"), Line::SourceFile("R8$$SyntheticClass"), m(Some((2, 4)), None, "p", "a.B,int[]", Orig::SE(7, 9), "m"), class("p.B", "b"), m(None, None, "q", "", Orig::None, "n")],
         vec![class("p.A", "a"), m(Some((1, 1)), None, "p", "", Orig::None, "m"), m(Some((1, 1)), None, "p", "", Orig::None, "m"), class("p.B", "b"), m(Some((5, 5)), None, "q", "int", Orig::SE(9, 7), "m"), class("p.C", "c")],
         vec![class("x.Outer$Inner", "b"), Line::SourceFile("R8$$SyntheticClass"), m(Some((3, 6)), None, "p", "", Orig::SE(7, 9), "m"), m(Some((3, 6)), Some("q.F$G"), "q", "", Orig::S(1), "m")],
+        // nine classes whose obfuscated names share a 16-byte prefix (a comparator that skips a common prefix relies on
+        // the table being sorted; one redirected name offset un-sorts it), one short name among them
+        vec![class("o.A", "com.example.pkg.a"), class("o.B", "com.example.pkg.b"), class("o.C", "com.example.pkg.c"), class("o.D", "com.example.pkg.d"), m(None, None, "p", "", Orig::None, "m"), class("o.E", "com.example.pkg.e"), class("o.F", "com.example.pkg.f"), class("o.G", "com.example.pkg.g"), class("o.H", "com.example.pkg.h"), class("o.Z", "z")],
     ];
     // long non-ASCII names: runs of > 10 bytes with the high bit set inside the string section
     v.push(vec![class("com.example.\u{65e5}\u{672c}\u{8a9e}\u{306e}\u{30af}\u{30e9}\u{30b9}\u{540d}", "a"), m(Some((1, 2)), Some("\u{e9}\u{e8}\u{ea}\u{eb}\u{e0}\u{e2}\u{e4}.K"), "\u{65b9}\u{6cd5}\u{540d}\u{524d}\u{3067}\u{3059}", "\u{578b}\u{578b}\u{578b}\u{578b}", Orig::SE(3, 4), "m")]);
@@ -292,6 +295,57 @@ fn c11_visit(lines: &[Line], term: Term, acc: &mut Acc) {
     acc.sample(2, || json!({"mapping": esc(&mapping), "cache_len": full.len(), "faults": "every strict prefix; every single-field header edit"}));
 }
 
+/// foreign files that are not derived from a cache: mapping texts, other formats' signatures, constant bytes, text.
+/// Neither `PRGC` nor `CGRP` in front: >= 24 bytes => the format error; shorter => any error.
+fn c11_foreign(acc: &mut Acc) {
+    let mut bufs: Vec<(String, Vec<u8>)> = Vec::new();
+    for (name, bytes) in crate::props::c02::corpus_files() {
+        bufs.push((format!("mapping text {}", name), bytes.iter().copied().take(4096).collect()));
+    }
+    bufs.push(("small mapping text".into(), b"com.example.Foo -> a.b:\n    1:2:void run():3:4 -> r\n    int count -> c\n".to_vec()));
+    bufs.push(("header comment text".into(), b"# compiler: R8\n# compiler_version: 1.2.3\n# min_api: 21\ncom.example.Foo -> a:\n".to_vec()));
+    for (name, sig) in [("gzip", &b"\x1f\x8b\x08\x00"[..]), ("zstd", b"\x28\xb5\x2f\xfd"), ("zip", b"PK\x03\x04"), ("png", b"\x89PNG\r\n\x1a\n"), ("elf", b"\x7fELF"), ("pdf", b"%PDF-1.7"), ("xz", b"\xfd7zXZ\x00"), ("bzip2", b"BZh9"), ("lz4", b"\x04\x22\x4d\x18"), ("sqlite", b"SQLite format 3\x00"), ("java class", b"\xca\xfe\xba\xbe"), ("symcache", b"SYMC"), ("json", b"{\"version\":1}"), ("utf-8 bom", b"\xef\xbb\xbfPRGC"), ("lower case", b"prgc"), ("shifted", b"\x00PRGC")] {
+        for fill in [0u8, 1, 0xff] {
+            let mut b = sig.to_vec();
+            // version field 1 and plausible counts behind the foreign magic
+            while b.len() < 4 { b.push(fill); }
+            b.truncate(b.len().max(4));
+            let mut rest = vec![1u8, 0, 0, 0];
+            rest.extend(std::iter::repeat(fill).take(60));
+            b.extend(rest);
+            bufs.push((format!("{} signature, fill {:#04x}", name, fill), b));
+        }
+    }
+    for fill in [0u8, 0x20, 0x41, 0xff] {
+        for len in [0usize, 1, 3, 4, 23, 24, 25, 64, 4096] {
+            bufs.push((format!("{} bytes of {:#04x}", len, fill), vec![fill; len]));
+        }
+    }
+    for (name, b) in bufs {
+        acc.states += 1;
+        acc.transitions += 1;
+        acc.observations += 1;
+        let ab = Aligned::new(&b);
+        let magic_ok = b.len() >= 4 && (b[..4] == MAGIC.to_le_bytes() || b[..4] == MAGIC.swap_bytes().to_le_bytes());
+        if magic_ok {
+            continue;
+        }
+        let r = guarded(|| cur::ProguardCache::parse(ab.as_slice()).map(|_| ()).map_err(|e| e.kind()));
+        let case = json!({"kind":"foreign","name":name,"bytes":esc(&b[..b.len().min(200)])});
+        match r {
+            Err(p) => acc.violation(format!("foreign:panic:{}", panic_site(&p)), b.len(), || (format!("parsing a foreign buffer ({}) panicked: {}", name, p), case.clone())),
+            Ok(Ok(())) => acc.violation("foreign:accepted", b.len(), || (format!("a foreign buffer ({}) was accepted as a cache", name), case.clone())),
+            Ok(Err(k)) => {
+                acc.outcome(h64(&("foreign", format!("{:?}", std::mem::discriminant(&k)))), true);
+                if b.len() >= HEADER_SIZE && !kind_matches(Exp::Format, &Err(k)) {
+                    acc.violation("foreign:expected-WrongFormat", b.len(), || (format!("a foreign buffer ({}, {} bytes, neither magic) is rejected with {:?}; the statement says: the format error", name, b.len(), k), case.clone()));
+                }
+            }
+        }
+    }
+    acc.count("foreign buffers (mapping texts, other formats' signatures, constant bytes)", 1);
+}
+
 pub fn run_c11(tier: Tier) -> i32 {
     let t = tier.thorough();
     let budget = Budget::new(if t { 14 * 60 } else { 50 });
@@ -326,11 +380,12 @@ pub fn run_c11(tier: Tier) -> i32 {
     }
     let nb = bases.len();
     let mut acc = par_run(&bases, &budget, |(l, tm), acc, _| c11_visit(l, *tm, acc));
+    c11_foreign(&mut acc);
     let meta = RunMeta {
         prop: "C11",
         tier,
         level: "fault_enumeration",
-        rule: "base files = caches written from every curated mapping, every MS-B history (depth <= 3 quick / 4 thorough), MS-C and small MS-D files, the long-name files (127..1025-byte names) and the character-class family; two files with a 16 MiB / 32 MiB string section; faults = every strict prefix length 0..len-1, in an 8-aligned buffer and (files <= 4 kB; prefix clause only) in a buffer at an address = 4 (mod 8) (crash points; for files above 100 kB the last 4096 prefixes, 8 bytes around every section boundary and every 65536th length) and every single-field edit of the header (5 magic values, 8 versions incl. values whose low or high half is 1, 6 values per count, every single-bit flip of all six fields) plus 4 two-edit precedence scripts; oracle = rejection with the error kind the documented layout implies (computed by the independent decoder), or acceptance with answers identical to the full file. evaluations = faulted buffers parsed; distinct = distinct (fault class, error kind) pairs".into(),
+        rule: "base files = caches written from every curated mapping, every MS-B history (depth <= 3 quick / 4 thorough), MS-C and small MS-D files, the long-name files (127..1025-byte names) and the character-class family; two files with a 16 MiB / 32 MiB string section; faults = every strict prefix length 0..len-1, in an 8-aligned buffer and (files <= 4 kB; prefix clause only) in a buffer at an address = 4 (mod 8) (crash points; for files above 100 kB the last 4096 prefixes, 8 bytes around every section boundary and every 65536th length) and every single-field edit of the header (5 magic values, 8 versions incl. values whose low or high half is 1, 6 values per count, every single-bit flip of all six fields) plus 4 two-edit precedence scripts; plus foreign buffers that are not derived from a cache (the corpus mapping texts, 16 other formats' signatures with 3 fills, constant bytes of 9 lengths: >= 24 bytes and neither magic => the format error); oracle = rejection with the error kind the documented layout implies (computed by the independent decoder), or acceptance with answers identical to the full file. evaluations = faulted buffers parsed; distinct = distinct (fault class, error kind) pairs".into(),
         bounds: json!({"base_files": nb, "prefixes": "all", "header_edits_per_file": "5 magic + 3 version + up to 24 count values + 4 precedence scripts"}),
         assumptions: vec!["prefixes shorter than the 24-byte header: any error kind is accepted (the statement names none)".into(), "buffers handed to the parser are 8-aligned (the parser pads relative to the memory address)".into()],
         trusted_base: vec!["rustc/std".into(), "layout arithmetic of pgmc/src/dec.rs".into()],
@@ -339,6 +394,11 @@ pub fn run_c11(tier: Tier) -> i32 {
 }
 
 pub fn recheck_c11(case: &Value) -> Vec<String> {
+    if case["kind"] == "foreign" {
+        let mut acc = Acc::new();
+        c11_foreign(&mut acc);
+        return acc.violations.keys().cloned().collect();
+    }
     let (lines, term) = file_from_json(case);
     let mut acc = Acc::new();
     c11_visit(&lines, term, &mut acc);
@@ -455,6 +515,10 @@ fn field_devs(full: &[u8]) -> Vec<Dev> {
     }
     if let Some(s) = starts.last() {
         vals.push(*s);
+    }
+    // small string tables: every string start (a name offset redirected to ANY other string of the table)
+    if starts.len() <= 40 {
+        vals.extend(starts.iter().copied());
     }
     vals.sort();
     vals.dedup();
